@@ -213,7 +213,8 @@ CHECKS["C14"] = dict(
           "exact answer and >=1e-6 margin are computed by the Lean driver at Q; returned points are judged by Lean (nearArc, 1e-9) on "
           "the exact value of the returned doubles. The snapshot's lon/lat logic of point_within_gca failed on pole-related arcs "
           "(repaired by fix 87607001; as-is witnesses kept). Known findings: crossings missed when the candidate's plane residual "
-          "exceeds MACHINE_EPSILON (~0.7%), end point within 1.41e-4 rad of a pole snapped in extreme_gca_latitude."),
+          "exceeds MACHINE_EPSILON (~0.7%), exact on-arc points rejected by the same plane tolerance (~1e-5), end point within 1.41e-4 rad of a "
+          "pole snapped in extreme_gca_latitude."),
     note=_TB + "Modelled, not verified: IEEE evaluation inside the three functions (only tested, on inputs >=1e-6 rad from every decision "
          "boundary); latitude VALUE compared at ERROR_TOLERANCE / 4 ulp of sin(lat) (float clause, test level); the same-great-circle "
          "branch of gca_gca_intersection and directed arcs are outside the property. Regenerated ERROR_TOLERANCE/MACHINE_EPSILON are "
